@@ -74,6 +74,7 @@ structure St where
   tgData : TGMap := []
   seen : List Int := []
   clobbered : Bool := false
+  ckptDropped : Bool := false     -- ghost: a CHECKPOINT/COMMITCOMPLETE record removed a stored group
   deriving Repr
 
 inductive Step where
@@ -113,7 +114,8 @@ def step (md5 : Bytes → Bytes) (fsz : Nat) (r : Bytes) (st : St) : Step :=
       let status := buf.getD 9 0
       -- invalid destination / status: `(0,0,0,err)`, a plain error: only `txnStateWAL[0]` changes
       if dest = destCHECKPOINT ∧ status = statusCOMMITCOMPLETE ∧ st.tgData.has tgid then
-        .cont r' { st with tgData := st.tgData.dropUpTo tgid }
+        .cont r' { st with tgData := st.tgData.dropUpTo tgid,
+                           ckptDropped := st.ckptDropped || st.tgData.any (fun e => decide (e.1 ≤ tgid) && e.2.isSome) }
       else .cont r' st
     else if b = midSTATUS then
       -- wal.ReadStatus at EOF: `Read` returns a nil slice and `buf[0], buf[1], io.ToInt64(buf[2:])` is
@@ -169,6 +171,7 @@ structure Result where
   writes : List Write := []     -- in the order performed
   applied : List Int := []      -- ids of the groups whose write sets were all performed
   clobbered : Bool := false
+  ckptDropped : Bool := false
   deriving Repr
 
 /-- `replayTGData` for the write sets of one group. `exists_` tells whether a path can be opened. -/
@@ -212,7 +215,7 @@ def replay (md5 : Bytes → Bytes) (exists_ : Bytes → Bool) (root : Bytes) (f 
       | .slice => "tglen_lt_7" | .makeslice => "tglen_negative" | .index => "status_at_eof" }
   | .statusEof => { outcome := .panic .slice, cause := "status_at_eof" }
   | .dup id => { outcome := .moved, cause := if id = 0 then "dup_id0" else "dup_tgid" }
-  | .done st => secondPass exists_ root (pending st.tgData) { outcome := .ok, clobbered := st.clobbered }
+  | .done st => secondPass exists_ root (pending st.tgData) { outcome := .ok, clobbered := st.clobbered, ckptDropped := st.ckptDropped }
 
 /-- `WriteStatus(OPEN, REPLAYINPROCESS)`: the first 11 bytes become `STATUS, OPEN, REPLAYINPROCESS, owner` -/
 def patchStatus (f : Bytes) : Bytes := [2, 1, 3] ++ f.drop 3
